@@ -16,14 +16,14 @@ RULE = ("pull of device files (sizes 0 .. multi-MiB) whose reply the simulator c
 ASSUMPTIONS = ["with a progress callback pull first stats the file on a nested stream; its size is what the callback reports as total"]
 SHARDS = {"quick": 8, "thorough": 16}
 TIME_BUDGET = {"quick": 300, "thorough": 1800}
-FLOORS = {"quick": {"pulls": 600, "bytes_compared": 1000000, "cut_offsets": 300, "distinct": 200}, "thorough": {"pulls": 8000, "cut_offsets": 4000}}
+FLOORS = {"quick": {"pulls": 600, "bytes_compared": 1000000, "cut_offsets": 250, "distinct": 200}, "thorough": {"pulls": 8000, "cut_offsets": 4000}}
 
 
 def gen_cases(tier, seed):
     n = 900 if tier == "quick" else 12000
     for i in range(n):
         yield {"kind": "rand", "impl": ("sync", "async")[i % 2], "seed": "%d:%d" % (seed, i)}
-    for i in range(10 if tier == "quick" else 80):
+    for i in range(16 if tier == "quick" else 80):
         yield {"kind": "cut", "impl": ("sync", "async")[i % 2], "seed": "%d:cut%d" % (seed, i), "max": 60 if tier == "quick" else 400}
     if tier == "thorough":
         for i in range(4):
